@@ -191,6 +191,15 @@ func (c *Ctx) globalFacts(g *ssa.Global, ref string) {
 			if k == "regexp.MustCompile" {
 				id := 70000 + w.globalIDs["glob$"+mangle(g.Pkg.Pkg.Path())+"."+g.Name()]
 				add(eq(cell(), fmt.Sprintf("(* %d %s)", id, refStride)))
+				// the pattern it was compiled from, when that is a constant
+				// (specifications of MatchString may speak about particular patterns)
+				if len(v.Call.Args) == 1 {
+					if pc, ok := v.Call.Args[0].(*ssa.Const); ok && pc.Value != nil && pc.Value.Kind() == constant.String {
+						c.declFun("uf$rePattern", []string{"Int"}, "Str")
+						c.usedUF["rePattern"] = true
+						add(eq(fmt.Sprintf("(uf$rePattern (* %d %s))", id, refStride), c.strLit(constant.StringVal(pc.Value))))
+					}
+				}
 			}
 			if k == "errors.New" || k == "fmt.Errorf" {
 				id := 50000 + w.globalIDs["glob$"+mangle(g.Pkg.Pkg.Path())+"."+g.Name()]
